@@ -157,6 +157,15 @@ class Session:
                 if r["result"] == "sat":
                     r["backend"] += "+bounded-expansion(B=2)"
                     pre[id(o)] = r
+            # covers whose precondition needs longer lists (a polygon ring has >= 3 points): larger expansions
+            for B, tmo in ((3, 8000), (4, 12000)):
+                todo = [o for o in wit if id(o) not in pre and B in getattr(o, "_smt2_b", {})]
+                if not todo:
+                    continue
+                for o, r in zip(todo, discharge([o._smt2_b[B] for o in todo], timeout_ms=min(self.timeout_ms, tmo), cross=False, cvc5=False)):
+                    if r["result"] == "sat":
+                        r["backend"] += f"+bounded-expansion(B={B})"
+                        pre[id(o)] = r
         self._phase("witness pass", _t0)
         _t0 = time.time()
         rest = [o for o in obls if id(o) not in pre]
@@ -207,6 +216,12 @@ class Session:
         for fn, covers in by_fn.items():
             if covers and all(c in dead_covers for c in covers):
                 self.undecided.append(dict(what=fn, reason="no path of this function is reachable under its hypotheses (vacuous)"))
+            elif covers and not any(c.verdict and c.verdict["result"] == "sat" for c in covers):
+                # reachability of at least one path must be SHOWN (a witness), not merely not refuted
+                self.undecided.append(dict(what=fn, reason="no path of this function was shown reachable (every cover is unknown or dead): vacuity not excluded"))
+        for o in self.obligations:
+            if o.id.endswith("/cover-pre") and o.verdict and o.verdict["result"] == "unknown":
+                self.undecided.append(dict(what=o.id, reason="the precondition was not shown satisfiable (solver unknown): vacuity not excluded"))
         self.dead_covers = [o.id for o in dead_covers]
 
     def _triage_main(self, dead_covers):
